@@ -31,7 +31,7 @@ ASSUMPTIONS = [
     'containers hold literals only (the statement says: literals, containers of literals or nested Parameterized '
     'objects); Parameterized values sit directly in Parameter/ClassSelector parameters, nested to depth 2',
 ]
-REQUIRED = {'pprint_evals': 1000, 'script_repr_evals': 1000, 'values_related_to_default': 100, 'concurrent_prints': 30}
+REQUIRED = {'pprint_evals': 1000, 'script_repr_evals': 1000, 'values_related_to_default': 100, 'concurrent_prints': 30, 'prints_interrupted': 6, 'class_default_histories': 6}
 
 MODNAME = 'pvgen_c20'
 _st = {}
@@ -278,11 +278,80 @@ def concurrent_case(idx, rng, P, rep):
     rep.case(('concurrent', same_parent, tuple(rng_choice)), nontrivial=True)
 
 
+class Tripwire(int):
+    """An int whose repr is interrupted from outside once (Ctrl-C while a long print is under way)."""
+
+    def __repr__(self):
+        if _st.get('trip'):
+            _st['trip'] = False
+            _st['tripped'] = True
+            raise KeyboardInterrupt
+        return int.__repr__(self)
+
+
+def _rebuild(text, kind, evalns):
+    if kind == 'pprint':
+        return eval(text, dict(evalns))
+    tree = ast.parse(text)
+    g = {'inf': math.inf, 'nan': math.nan}
+    exec(compile(ast.Module(body=tree.body[:-1], type_ignores=[]), '<script_repr>', 'exec'), g)
+    return eval(compile(ast.Expression(tree.body[-1].value), '<script_repr>', 'eval'), g)
+
+
+def history_case(idx, rng, P, rep):
+    """Printing is reading: what an object prints as depends on its state when printed, not on what happened to it (or to
+    its class, or to an earlier, interrupted print) before."""
+    param = _st['param']
+    mod = _st['mod']
+    iname, cname = f'HInner{idx}', f'HOuter{idx}'
+    Inner = type(iname, (param.Parameterized,), {'__module__': MODNAME, 'y': param.Number(default=2.0), 's': param.String(default='s')})
+    Outer = type(cname, (param.Parameterized,), {'__module__': MODNAME, 'child': param.ClassSelector(class_=param.Parameterized, default=None),
+                                                 'x': param.Number(default=0.5), 'n': param.Integer(default=0)})
+    setattr(mod, iname, Inner)
+    setattr(mod, cname, Outer)
+    evalns = {k: v for k, v in vars(mod).items() if not k.startswith('__')}
+    which = rng.choice(['interrupted-print', 'class-default-changed-between-prints'])
+    printer = rng.choice(['pprint', 'script_repr'])
+
+    def show(o):
+        return o.param.pprint() if printer == 'pprint' else param.script_repr(o)
+    obj = Outer(x=2.0, n=Tripwire(7), child=Inner(y=40.0))
+    if which == 'interrupted-print':
+        _st['trip'], _st['tripped'] = True, False
+        try:
+            show(obj)
+        except KeyboardInterrupt:
+            pass
+        finally:
+            _st['trip'] = False
+        if _st['tripped']:
+            rep.count('prints_interrupted')
+    else:
+        show(obj)                       # printed while x and child.y are not at their defaults
+        Outer.x = 10.0                  # the class defaults change ...
+        Inner.y = 3.0
+        obj.x = 0.5                     # ... and the object is given the former defaults
+        obj.child.y = 2.0
+        rep.count('class_default_histories')
+    text = show(obj)
+    try:
+        new = _rebuild(text, printer, evalns)
+        diffs = []
+        equal(obj, new, cname, diffs)
+    except Exception as e:   # noqa: BLE001
+        diffs = [f'{type(e).__name__}: {e}']
+    if diffs:
+        rep.violation(f'C20/{printer}/values-differ/after-{which}', f'{diffs[:3]} text={text[:200]!r}', case=dict(kind=which, printer=printer))
+    rep.case(('history', which, printer), nontrivial=True)
+
+
 def run_case(idx, rng, P, rep):
     param = _st['param']
     mod = _st['mod']
     if rng.random() < 0.03:
         return concurrent_case(idx, rng, P, rep)
+    if rng.random() < 0.09:
+        return history_case(idx, rng, P, rep)
     inners = [make_inner(idx, rng, k) for k in range(rng.randint(1, 2))]
     n = rng.randint(2, 6)
     specs = []
